@@ -113,9 +113,10 @@ type Handler func(http.ResponseWriter, *http.Request, Params)
 
 // addLeaf adds a new leaf from the given segment.
 func addLeaf(t Tree, r *Route, s *Segment, h Handler) (Leaf, error) {
+	// The optional mark does not make a different route: "/a/?b" also serves "/a/b".
 	leaves := t.getLeaves()
 	for _, l := range leaves {
-		if l.getSegment().String() == s.String() {
+		if strings.TrimLeft(l.getSegment().String(), "/?") == strings.TrimLeft(s.String(), "/?") {
 			return nil, errors.Errorf("duplicated route %q", r.String())
 		}
 	}
